@@ -49,6 +49,9 @@ type osTemplate struct {
 	// the single builtin call Deferred is registered with defer, the function
 	// spins, and the evaluation is cancelled; the deferred call runs during the
 	// unwind and must be served by the supplied OS
+	// VosContains: what the result must contain when risor's own VirtualOS (two
+	// mounts over in-memory filesystems) is the host OS; nil = not judged there
+	VosContains []string
 	DeferPre     string
 	Deferred     string
 	DeferMethods []string
@@ -174,6 +177,14 @@ func osTemplates() []osTemplate {
 		T("filepath.walk_dir#real-symlink-name", `os.mkdir_all("/bin"); os.write_file("/bin/simtool", "t"); names := []; filepath.walk_dir("/bin", func(p, d, e) { names.append(p) }); return string(names)`, []string{"\"/bin/simtool\""}, []string{"WalkDir"}, true),
 		T("os.read_dir#real-symlink-name", `os.mkdir_all("/lib"); os.write_file("/lib/simlib", "t"); return string(os.read_dir("/lib").map(func(e) { return e.name }))`, []string{"simlib"}, []string{"ReadDir"}, true),
 		T("os.stat#real-symlink-name", `os.mkdir_all("/sbin"); return string(os.stat("/sbin").is_dir) + ":" + string(os.stat("/sbin").name)`, []string{"true:sbin"}, []string{"Stat"}, true),
+		// directories whose names also exist on the real machine
+		{Name: "os.mkdir_all#real-name", Covers: "os.mkdir_all", Body: `os.mkdir_all("/tmp/simd/sub"); os.mkdir_all("/realsub/inner"); return string(os.stat("/tmp/simd/sub").is_dir) + ":" + string(os.stat("/tmp").is_dir) + ":" + string(os.stat("/realsub").is_dir)`, Contains: []string{"true:true:true"}, VosContains: []string{"true:true:true"}, Methods: []string{"MkdirAll", "Stat"}, Failable: true, ExitCode: -1},
+		// a file that also exists on the real machine, renamed to another
+		// directory (another mount, under the VirtualOS, which refuses that)
+		{Name: "os.rename#real-name", Covers: "os.rename", Body: `os.mkdir_all("` + c12RealDir() + `"); os.mkdir_all("/data"); os.write_file("` + c12RealDir() + `/real-sentinel.txt", "virt-content"); try(func() { os.rename("` + c12RealDir() + `/real-sentinel.txt", "/data/moved.txt") }, func(e) { return 0 }); return string(try(func() { return os.read_file("/data/moved.txt") }, func(e) { return "no-file" }))`, Contains: []string{"virt-content"}, VosContains: []string{"no-file"}, Methods: []string{"Rename"}, Failable: true, ExitCode: -1},
+		// a file object the host made itself (with its own context, which
+		// carries no OS) and handed to the script
+		{Name: "file.stat#host-made-closed", Covers: "file.stat", Body: `hostfile.close(); return string(try(func() { return hostfile.stat().size }, func(e) { return "stat-refused" }))`, Contains: []string{"stat-refused"}, Methods: []string{"File.Close"}, Failable: true, ExitCode: -1},
 		T("filepath.walk_dir", `names := []; filepath.walk_dir("dir", func(p, d, e) { names.append(p) }); return string(names)`, []string{"dir/b.txt", "dir/sub/c.txt"}, []string{"WalkDir"}, true),
 		P("filepath.base", `return filepath.base("/a/b/c.txt")`, []string{"c.txt"}),
 		P("filepath.clean", `return filepath.clean("/a/../b/./c")`, []string{"/b/c"}),
@@ -306,6 +317,16 @@ func c12ForeignOutput(t osTemplate, output string) string {
 		}
 	}
 	return ""
+}
+
+// c12RealDir is the real working directory of the worker process (a scratch
+// directory holding real-sentinel.txt once the first run has set it up).
+func c12RealDir() string {
+	wd, err := goos.Getwd()
+	if err != nil {
+		return "/nonexistent-real-dir"
+	}
+	return wd
 }
 
 func c12Total() int { return len(osTemplates()) * len(c12Contexts) * len(c12Routes) * len(c12Faults) }
@@ -469,7 +490,8 @@ func runC12(rc *fw.RunCtx) {
 		if err != nil {
 			panic("harness: " + err.Error())
 		}
-		goos.WriteFile(scratch+"/real-sentinel.txt", []byte("real"), 0o644)
+		goos.WriteFile(scratch+"/real-sentinel.txt", []byte("only-real-file-content"), 0o644)
+		goos.Mkdir(scratch+"/realsub", 0o755) // (a real directory, relative to the real working directory)
 		if err := goos.Chdir(scratch); err != nil {
 			panic("harness: " + err.Error())
 		}
@@ -509,6 +531,17 @@ func runC12(rc *fw.RunCtx) {
 	}
 
 	globals := c12Globals()
+	// a file object the host opened on the simulated machine and wrapped
+	// itself, with its own context (which carries no OS); the path exists on
+	// the real machine as well
+	globals["hostfile"] = object.Nil
+	sos.Prepare(func() {
+		sos.MkdirAll("/etc", 0o755)
+		sos.WriteFile("/etc/passwd", []byte("sim-passwd-content"), 0o644)
+		if hf, err := sos.Open("/etc/passwd"); err == nil {
+			globals["hostfile"] = object.NewFile(context.Background(), hf, "/etc/passwd")
+		}
+	})
 	var names []string
 	for k := range globals {
 		names = append(names, k)
@@ -752,6 +785,15 @@ try(func() { os.stderr.write("STALE-F-MARK") }, func(e) { return 0 })
 		res := out.String()
 		if leak := c12Leak(res); leak != "" {
 			rc.Violate("divergence/real-data/"+locus, "%s: with risor's VirtualOS as the host OS the result %q carries %s", tuple, res, leak)
+			return
+		}
+		if ctxName != "defer-after-cancel" && ctxName != "nested-eval" { // (the nested evaluation runs on the simulated OS)
+			for _, c := range t.VosContains {
+				if !strings.Contains(res, c) {
+					rc.Violate("divergence/virtual-os-result/"+locus, "%s: with risor's VirtualOS (in-memory mounts) as the host OS the result %q lacks %q", tuple, res, c)
+					return
+				}
+			}
 		}
 		return
 	}
@@ -912,7 +954,7 @@ func c12VirtualOS(ctx context.Context) *ros.VirtualOS {
 	}
 	return ros.NewVirtualOS(ctx,
 		ros.WithCwd("/simroot/work"),
-		ros.WithMounts(map[string]*ros.Mount{"/": {Source: mfs, Target: "/", Type: "mem"}}),
+		ros.WithMounts(map[string]*ros.Mount{"/": {Source: mfs, Target: "/", Type: "mem"}, "/data": {Source: ros.NewMockFS(), Target: "/data", Type: "mem"}}),
 		ros.WithEnvironment(map[string]string{"VERIF_SENTINEL": "vos-value", "SIMONLY": "vos-only"}),
 		ros.WithArgs([]string{"vos-arg0"}),
 		ros.WithExitHandler(func(int) {}),
